@@ -20,7 +20,9 @@ Leaves ==
   {[op |-> "asset", name |-> n, rng |-> r] : n \in {"S1", "S2"}, r \in Rngs}
   \cup {[op |-> "as", name |-> n, rng |-> r] : n \in {"A1", "A2"}, r \in Rngs}
   \cup {[op |-> "rset", name |-> "R1", rng |-> r] : r \in RsRngs}
-  \cup {[op |-> "fset", name |-> "F1"], [op |-> "fset", name |-> "F2"]}
+  \cup {[op |-> "fset", name |-> "F1"], [op |-> "fset", name |-> "F2"],
+         (* a filter-set that only the server's second registry has (F1 may have a second copy there) *)
+         [op |-> "fset", name |-> "F3"]}
   \cup {[op |-> "lit", atoms |-> a, rng |-> r] : a \in {{P8}, {P9a, V32}}, r \in Rngs}
 FltOpts == {[op |-> "asset", name |-> "S1", rng |-> NoRange],
             [op |-> "and", l |-> [op |-> "asset", name |-> "S2", rng |-> NoRange], r |-> [op |-> "rset", name |-> "R1", rng |-> NoRange]],
